@@ -9,6 +9,7 @@ import (
 
 //zzv:bound X1 = lockset obligation on the sequential analysis code of one fan (real RunInitializationSequence: PWM-map sweep 255..0 and RPM-curve measurement over all distinct values, hwmon fan that reads back what is written, with and without an RPM sensor, constant RPM reading; started with the mutex free or held by another fan's analysis that ends later): with runFanInitializationInParallel = false every PWM write of the analysis happens while InitializationSequenceMutex is held and the mutex is not released between the first and the last analysis write; by the semantics of a mutex the analysis intervals of any number of fans are then disjoint under every schedule
 //zzv:bound X3 = the same obligation on the analysis as the daemon starts it: real (*DefaultFanController).Run start-up of a hwmon or file fan with nothing stored, or with RPM-curve data stored but no PWM map, option false: apart from the few writes of the final restore every PWM write of the start-up happens while the mutex is held
+//zzv:bound X4 = the same lockset obligation when the fan's PWM map is already known (stored by an interrupted earlier analysis, or configured; 18 supported values) and only the RPM-curve measurement remains
 //zzv:bound X2 = with the option true the analysis completes without touching the mutex (analyses may overlap)
 //zzv:outside exclusion achieved by anything other than InitializationSequenceMutex (the check would then be inconclusive, not a violation); fairness and start order of the per-fan goroutines
 //zzv:stub sync.Mutex.Lock/Unlock drive a ghost 'held' flag; time.Sleep is a no-op
@@ -32,12 +33,29 @@ func (s *zzLockSpy) SetPwm(pwm int) error {
 }
 
 func zzAnalysis(parallel bool, hasRpm bool) (*zzLockSpy, error) {
+	return zzAnalysisM(parallel, hasRpm, 0)
+}
+
+// mapSource: 0 no PWM map known yet, 1 a PWM map is in the store (an earlier analysis was
+// interrupted after the sweep: the map is saved right after it, the curve data only at the end),
+// 2 a pwmMap is configured for the fan.
+func zzAnalysisM(parallel bool, hasRpm bool, mapSource int) (*zzLockSpy, error) {
 	configuration.CurrentConfig.RunFanInitializationInParallel = parallel
 	configuration.CurrentConfig.MaxRpmDiffForSettledFan = 1000000
 	configuration.CurrentConfig.FanResponseDelay = 0
 	configuration.CurrentConfig.RpmRollingWindowSize = 10
 	e := zzNewFan(zzKindHwmon, false, true, true, hasRpm, 100, 2, 1200)
 	mem := &zzMemPersistence{rpm: map[string]map[int]float64{}, pwmMaps: map[string]map[int]int{}}
+	known := map[int]int{}
+	for k := 0; k <= 255; k += 15 {
+		known[k] = k
+	}
+	switch mapSource {
+	case 1:
+		mem.pwmMaps["zzfan"] = known
+	case 2:
+		e.hw.Config.PwmMap = &known
+	}
 	spy := &zzLockSpy{zzSpyFan: &zzSpyFan{Fan: e.fan}}
 	c := &DefaultFanController{persistence: mem, fan: spy, curve: &zzCurve{id: "zzcurve"}, updateRate: time.Millisecond,
 		pwmValuesWithDistinctTarget: []int{}, controlLoop: zzLoop(0)}
@@ -101,4 +119,24 @@ func ZZ_C16_X3_StartupAnalysisHoldsTheLock() {
 	// the writes of the final restore (not part of any analysis) happen without the mutex
 	zzv.Assert(zzv.UnlockedWrites(e.pwmPath) <= zzFewWrites, "X3.start_up_analysis_writes_hold_the_lock")
 	zzv.Assert(!zzv.MutexHeld(&InitializationSequenceMutex), "X3.lock_released_afterwards")
+}
+
+// X4: the RPM-curve measurement of a fan whose PWM map is already known (no sweep needed): the
+// measurement is an analysis like any other and must hold the mutex.
+func ZZ_C16_X4_MeasurementWithKnownMapHoldsTheLock() {
+	mapSource := zzv.Choice("pwmMapFrom", 2) + 1
+	if zzv.Choice("anotherAnalysisRunning", 2) == 1 {
+		zzv.MutexHoldByOther(&InitializationSequenceMutex, 40)
+	}
+	spy, err := zzAnalysisM(false, true, mapSource)
+	zzv.Assert(err == nil, "X4.analysis_completes")
+	zzv.Record("analysisWrites", len(spy.held))
+	zzv.Assert(len(spy.held) >= 10, "X4.measurement_writes_observed")
+	all := true
+	for _, h := range spy.held {
+		all = all && h
+	}
+	zzv.Assert(all, "X4.every_measurement_write_holds_the_lock")
+	zzv.Assert(spy.releases == 0, "X4.lock_not_released_during_measurement")
+	zzv.Assert(!zzv.MutexHeld(&InitializationSequenceMutex), "X4.lock_released_afterwards")
 }
